@@ -120,4 +120,12 @@ example : Model.ParseInt.parseInt {} ⟨64, false⟩ 10 false false
     [49, 56, 52, 52, 54, 55, 52, 52, 48, 55, 51, 55, 48, 57, 53, 53, 49, 54, 49, 53] = .done (.ok 18446744073709551615 20) := by
   decide +kernel
 
+
+/-- The hypothesis `feats.powerOfTwo = true ∨ r = 10` is needed *on the model*: without the `power-of-two`
+feature `can_try_parse_multidigits` is `true` for every radix, so a radix-16 call would send `":000"` through
+`is_4digits` (which then accepts `0x30..0x3F`) and return a value instead of `InvalidDigit(0)`. The public API
+cannot get there: in such builds `format.is_valid()` rejects every radix other than 10 before `algorithm!` runs. -/
+example : Model.ParseInt.parseInt {} ⟨32, false⟩ 16 false false [58, 48, 48, 48]
+    ≠ .done (Spec.parseInt ⟨32, false⟩ 16 false [58, 48, 48, 48]) := by decide +kernel
+
 end LexVerif.Props.C04
